@@ -62,6 +62,10 @@ pub struct BinCase {
     /// `DatasetBase::map_targets` (as in the crate's documentation) instead of being built with the names
     #[serde(default)]
     pub naming_via_map_targets: bool,
+    /// MIS-SHAPED start: the given initial parameters get this many rows more (+1) / fewer (-1) than the configured
+    /// model needs; oracle: Err(InitialParameter*Mismatch), or Ok and then every oracle holds for the configured model
+    #[serde(default)]
+    pub init_rows_delta: i8,
 }
 
 pub const OWN_SCORE_BOUND: f64 = 15.0;
@@ -222,7 +226,15 @@ fn $name<C: Ord + Clone + Default + std::fmt::Debug + 'static>(case: &BinCase, c
                     2 => p.max_iterations(if decoy { 3 } else { case.max_iter }),
                     3 => p.gradient_tolerance(if decoy { 0.5 } else { case.gtol as $F }),
                     _ => match &case.init {
-                        Some(init) => p.initial_params(if decoy { Array1::from_elem(np, 1.0) } else { Array1::from(init.iter().map(|&v| v as $F).collect::<Vec<$F>>()) }),
+                        Some(init) => p.initial_params(if decoy { Array1::from_elem(np, 1.0) } else { {
+                            let mut v: Vec<$F> = init.iter().map(|&v| v as $F).collect();
+                            if case.init_rows_delta > 0 {
+                                v.push(0.05);
+                            } else if case.init_rows_delta < 0 {
+                                v.pop();
+                            }
+                            Array1::from(v)
+                        } }),
                         None => p,
                     },
                 };
@@ -256,6 +268,10 @@ fn $name<C: Ord + Clone + Default + std::fmt::Debug + 'static>(case: &BinCase, c
     };
     let mut model = match do_fit(&params) {
         Ok(Ok(m)) => m,
+        Ok(Err(linfa_logistic::error::Error::InitialParameterFeaturesMismatch { .. })) if case.init_rows_delta != 0 => {
+            out.tag("mis_shaped_initial_params_rejected");
+            return out;
+        }
         Ok(Err(e)) => {
             let msg = format!("{}", e);
             let sig = if is32 && msg.contains("not finite") { "logistic.fit.error_nonfinite_loss.f32" } else { "logistic.fit.unexpected_error" };
